@@ -62,6 +62,33 @@ theorem evalB_append {σ : Type} (P : Prims σ) (xs ys : List Stmt) : ∀ (env :
       | cont => rfl
       | ret v => rfl
 
+/-- a filter whose predicate does not touch the world and is described by `g` -/
+theorem filterM_pure {σ α : Type} (enc : α → Val) (f : Val → σ → Option (Bool × σ)) (g : α → Bool) (w : σ)
+    (xs : List α) (hf : ∀ x ∈ xs, f (enc x) w = some (g x, w)) :
+    filterM f (xs.map enc) w = some ((xs.filter g).map enc, w) := by
+  induction xs with
+  | nil => simp [filterM]
+  | cons x rest ih =>
+    have h1 := hf x (by simp)
+    have h2 := ih (fun y hy => hf y (by simp [hy]))
+    simp only [List.map_cons, filterM, h1, h2, List.filter_cons]
+    cases g x <;> simp
+
+
+/-- fas.Filter with a predicate body that does not touch the world -/
+theorem evalE_filter_pure {σ α : Type} (P : Prims σ) (env : Env) (w : σ) (xs : Expr) (param : String) (body : List Stmt)
+    (enc : α → Val) (l : List α) (g : α → Bool)
+    (hxs : evalE P env w xs = some (.list (l.map enc), w))
+    (hbody : ∀ x ∈ l, ∃ e', evalB P (Env.def env param (enc x)) w body = some (e', w, .ret (.bool (g x)))) :
+    evalE P env w (.filter xs param body) = some (.list ((l.filter g).map enc), w) := by
+  simp only [evalE, hxs]
+  rw [filterM_pure enc _ g w l (by
+    intro x hx
+    obtain ⟨e', he⟩ := hbody x hx
+    simp only [he])]
+  rfl
+
+
 open Lean.Parser.Tactic in
 /-- unfold the MiniGo interpreter (on a concrete program) together with the given definitions -/
 macro "go_simp" "[" ts:simpLemma,* "]" : tactic =>
